@@ -885,7 +885,13 @@ class Server:
         line = await stream.readline()
         if not line:
             raise ConnectionResetError
-        s = line.decode(encoding=self.encoding).rstrip()
+        try:
+            s = line.decode(encoding=self.encoding).rstrip()
+        except UnicodeDecodeError as e:
+            # exception of decoder holds the whole line (password of "PASS"
+            # line included) and is logged with the session it ends
+            message = f"command line is not valid {self.encoding}"
+            raise ValueError(f"{message} ({e.reason})") from None
         cmd, _, rest = s.partition(" ")
 
         if cmd.lower() in censor_commands:
